@@ -763,6 +763,19 @@ class Miller(Vector3d):
         m.coordinate_format = self.coordinate_format
         return m
 
+    def squeeze(self) -> Self:
+        """Return a new instance with the vectors with length
+        1-dimensions removed.
+
+        Returns
+        -------
+        m
+            Squeezed instance.
+        """
+        m = self.__class__(xyz=np.atleast_2d(self.data.squeeze()), phase=self.phase)
+        m.coordinate_format = self.coordinate_format
+        return m
+
     def unique(
         self, use_symmetry: bool = False, return_index: bool = False
     ) -> Union[Self, Tuple[Self, np.ndarray]]:
